@@ -1118,6 +1118,7 @@ mod c03 {
                 let hops: usize = s.segments.iter().map(|g| g.hop_fields.len()).sum();
                 if s.current_hop_field as usize >= hops || s.current_info_field as usize >= s.segments.len() { return Some("curr-index") }
                 if s.current_hop_field > 63 { return Some("curr-hop-6bit") }
+                if hops > 64 { return Some("total-hops") }
             }
             _ => {}
         }
